@@ -18,6 +18,7 @@ import (
 	"syscall"
 	"time"
 
+	_ "verif/internal/model/cisco"
 	"verif/internal/model/cli"
 	_ "verif/internal/model/linux"
 	"verif/internal/sim"
@@ -34,13 +35,14 @@ type session struct {
 	reload  string // none | pending
 	curLine string // command being answered
 	// linux
-	lastStatus int
-	ps1Set     bool
-	modified   bool
-	busyDone   bool
-	lastEvent  *sim.Event
-	curFault   string // kind of fault applied to the line being processed
-	joined     bool   // current line arrived in the same packet as the previous one
+	lastStatus  int
+	ps1Set      bool
+	modified    bool
+	busyDone    bool
+	lastEvent   *sim.Event
+	curFault    string // kind of fault applied to the line being processed
+	joined      bool   // current line arrived in the same packet as the previous one
+	unresBefore map[string]bool
 }
 
 func main() {
@@ -727,7 +729,7 @@ func (s *session) ciscoLoop() {
 			s.dev.Exec(line)
 			s.ciscoReply(line, "")
 		default:
-			out, verdict := s.dev.Exec(line)
+			out, verdict := s.execConfig(line)
 			if class == "mode" && line == "exit" && s.dev.ModeSuffix() == "" {
 				// exit from top config mode
 				s.mode = "exec"
@@ -739,6 +741,81 @@ func (s *session) ciscoLoop() {
 			s.ciscoReply(line, crlf(out))
 		}
 	}
+}
+
+// rawDevice is implemented by models that can execute the halves of a
+// two-command packet without judging references in between.
+type rawDevice interface {
+	ExecRaw(line string) string
+	Unresolved() map[string]bool
+}
+
+// execConfig executes one configuration command on the back end. The two
+// commands of one packet (replacement of a route, move of an ACL line) are
+// judged together: references may dangle between the halves, what still
+// dangles after the second one is reported with it.
+func (s *session) execConfig(line string) (out, verdict string) {
+	rd, ok := s.dev.(rawDevice)
+	first := !s.joined && s.in.Buffered() > 0
+	if !ok || !(first || s.joined) {
+		out, verdict = s.dev.Exec(line)
+		return out + s.notice(line, verdict), verdict
+	}
+	if first {
+		s.unresBefore = rd.Unresolved()
+	}
+	verdict = rd.ExecRaw(line)
+	if s.joined && strings.HasPrefix(verdict, "accepted") {
+		after := rd.Unresolved()
+		for k := range after {
+			if !s.unresBefore[k] {
+				verdict = "rejected:reference-to-absent-object " + k
+				break
+			}
+		}
+	}
+	if strings.HasPrefix(verdict, "rejected") {
+		if s.spec.Type == "asa" {
+			out = "ERROR: " + verdict + "\n"
+		} else {
+			out = "% " + verdict + "\n"
+		}
+	}
+	return out, verdict
+}
+
+// notice returns what an ASA prints in addition for an accepted command:
+// the lines the tool is documented to tolerate.
+func (s *session) notice(line, verdict string) string {
+	if !s.spec.Notices || s.spec.Type != "asa" || !strings.HasPrefix(verdict, "accepted") {
+		return ""
+	}
+	w := strings.Fields(line)
+	switch {
+	case len(w) >= 5 && w[0] == "crypto" && w[1] == "map" && (w[3] == "match" || w[3] == "set" || w[4] == "match" || w[4] == "set"):
+		// Entry without peer or without match address.
+		cfg := s.dev.Dump()
+		pre := "crypto map " + w[2] + " " + w[3] + " "
+		if !strings.Contains(cfg, pre+"match address") || !(strings.Contains(cfg, pre+"set peer") || strings.Contains(cfg, pre+"ipsec-isakmp dynamic")) {
+			if strings.Contains(cfg, pre) {
+				return "WARNING: The crypto map entry is incomplete!\n"
+			}
+		}
+	case len(w) >= 6 && w[0] == "no" && w[1] == "crypto" && w[2] == "map":
+		cfg := s.dev.Dump()
+		pre := "crypto map " + w[3] + " " + w[4] + " "
+		if strings.Contains(cfg, pre) && (!strings.Contains(cfg, pre+"match address") || !strings.Contains(cfg, pre+"set peer")) {
+			return "WARNING: The crypto map entry will be incomplete!\n"
+		}
+	case len(w) == 4 && w[0] == "tunnel-group" && w[2] == "type" && w[3] == "ipsec-l2l" && strings.Count(w[1], ".") != 3:
+		return "WARNING: L2L tunnel-groups that have names which are not an IP\n" +
+			"address may only be used if the tunnel authentication\n" +
+			"method is Digital Certificates and/or The peer is\n" +
+			"configured to use Aggressive Mode\n"
+	case len(w) >= 3 && w[0] == "no" && w[1] == "tunnel-group" && !strings.Contains(w[2], "-attributes"):
+		return "INFO: Removing tunnel-group " + w[2] + "\n"
+	}
+	return ""
 }
 
 // ---------------------------------------------------------------------
